@@ -136,6 +136,8 @@ type Explorer struct {
 	nodes    []*node
 	byKey    map[string][]int
 	frontier []int
+	frontier2 []int // nodes that already spent deviation budget
+	initBudget Budget
 	Counters map[string]int64
 	cur      *Ctx
 
@@ -414,22 +416,33 @@ func (ex *Explorer) addState(n *node, label string, mon MonState, budget Budget,
 	}
 	ex.nodes = append(ex.nodes, nn)
 	ex.byKey[key] = append(ex.byKey[key], nn.id)
-	ex.frontier = append(ex.frontier, nn.id)
+	// search order: the undisturbed graph (no deviation budget spent) is completed first, so that every
+	// control state of a whole release is reached and used as a deviation point before the (much larger)
+	// continuations of the deviations are explored breadth-first
+	if budget == ex.initBudget {
+		ex.frontier = append(ex.frontier, nn.id)
+	} else {
+		ex.frontier2 = append(ex.frontier2, nn.id)
+	}
 	return nn.id
 }
 
 // Run explores breadth-first from the current world state.
 func (ex *Explorer) Run(initBudget Budget) {
+	ex.initBudget = initBudget
 	ex.addState(nil, "", MonState{}, initBudget, true, false)
-	for len(ex.frontier) > 0 {
+	for len(ex.frontier) > 0 || len(ex.frontier2) > 0 {
+		if len(ex.frontier) == 0 {
+			ex.frontier, ex.frontier2 = ex.frontier2, nil
+		}
 		if ex.Cfg.StateCap > 0 && len(ex.nodes) >= ex.Cfg.StateCap {
 			ex.Capped = true
-			ex.R.NotExhaustive(fmt.Sprintf("scenario %s: state cap %d reached (frontier %d)", ex.Cfg.Sc.ID, ex.Cfg.StateCap, len(ex.frontier)))
+			ex.R.NotExhaustive(fmt.Sprintf("scenario %s: state cap %d reached (frontier %d)", ex.Cfg.Sc.ID, ex.Cfg.StateCap, len(ex.frontier)+len(ex.frontier2)))
 			break
 		}
 		if !ex.Cfg.Deadline.IsZero() && time.VerifRealNow().After(ex.Cfg.Deadline) {
 			ex.Capped = true
-			ex.R.NotExhaustive(fmt.Sprintf("scenario %s: internal deadline reached at %d states (frontier %d)", ex.Cfg.Sc.ID, len(ex.nodes), len(ex.frontier)))
+			ex.R.NotExhaustive(fmt.Sprintf("scenario %s: internal deadline reached at %d states (frontier %d)", ex.Cfg.Sc.ID, len(ex.nodes), len(ex.frontier)+len(ex.frontier2)))
 			break
 		}
 		id := ex.frontier[0]
